@@ -27,6 +27,10 @@ structure St where
   skHoisted : Bool := false
   skFileSw : List (Int × Bool) := []
   skAcc : List Sk := []
+  -- dump model (`dm …` lines)
+  dm : DumpSt := {}
+  dmFile : Bool := false
+  dmStr : Bool := false
 
 def look (m : List (Int × Bool)) (n : Int) : Bool := (m.lookup n).getD false
 
@@ -87,6 +91,11 @@ def feed (s : St) (line : String) : St :=
       addUser { s with pevs := s.pevs.push (.val n ((f / 4) % 2 == 1) name v r) } n
     | _, _, _, _, _ => { s with bad := s.bad + 1 }
   | "cfg" :: "selusers" :: ws => { s with extraUsers := ws.filterMap String.toInt? }
+  | ["dm", "reset"] => { s with dm := {} }
+  | ["dm", "cfg", f, g] => { s with dmFile := f == "1", dmStr := g == "1" }
+  | ["dm", "sim", hasDump, app, prDump, tok] =>
+    let sim : Option Bool × List Char := (if hasDump == "1" then some (app == "1") else none, tok.toList)
+    { s with dm := dumpStep s.dmFile s.dmStr (prDump == "1") s.dm sim }
   | ["sk", "reset"] => { s with so := {}, skAcc := [] }
   | "sk" :: "cfg" :: h :: ws => { s with skHoisted := h == "1", skFileSw := parseMap ws, skAcc := [] }
   | "sk" :: "sim" :: first :: prPunch :: tidy :: bs =>
@@ -212,6 +221,9 @@ def run : IO Unit := do
     else if t == "sk endcall" then
       out.putStrLn ("P sk" ++ String.join (s.skAcc.map fun k => " " ++ showSk k))
       s := { s with so := s.so.closeAll, skAcc := [] }
+    else if t == "dm endcall" then
+      let b := fun (x : Bool) => if x then "1" else "0"
+      out.putStrLn s!"P dm {b s.dm.info.on} {b s.dm.info.any} {b s.dm.info.append} f={String.ofList s.dm.file} s={String.ofList s.dm.str} lines={(dumpLines s.dm).length}"
     else if t.startsWith "cells " then
       for r in cellsQuery s ((words t).drop 1) do out.putStrLn r
     else if t.startsWith "fq " then
